@@ -7,3 +7,7 @@ pub fn verif_unreachable() -> ! requires false { panic!() }
 pub assume_specification<T, E, U, F: FnOnce(T) -> core::result::Result<U, E>>[core::result::Result::<T,E>::and_then](r: core::result::Result<T,E>, op: F) -> (res: core::result::Result<U,E>)
   requires r is Ok ==> op.requires((r->Ok_0,)),
   ensures match r { Ok(v) => op.ensures((v,), res), Err(e) => res == Err::<U,E>(e) };
+
+// std functions without a vstd specification (each listed in core.TRUSTED)
+pub assume_specification[i64::unsigned_abs](x: i64) -> (r: u64)
+  ensures r as int == (if x < 0 { -(x as int) } else { x as int });
